@@ -13,6 +13,7 @@ mod ctlrig;
 mod sched;
 mod simnet;
 mod slotrig;
+mod tcprig;
 mod wirerig;
 
 use std::collections::HashMap;
@@ -226,6 +227,15 @@ fn cmd_ctl_runs(m: &HashMap<String, String>) -> i32 {
     0
 }
 
+fn cmd_tcp_runs(m: &HashMap<String, String>) -> i32 {
+    let out = m.get("out").expect("--out");
+    let f = std::fs::File::create(out).expect("create");
+    let mut w = BufWriter::new(f);
+    tcprig::run_many(&mut w, geti(m, "count", 8u64), geti(m, "seed", 1u64), geti(m, "first", 0u64), geti(m, "par", 16usize));
+    w.flush().ok();
+    0
+}
+
 fn main() {
     let args: Vec<String> = std::env::args().collect();
     if args.len() < 2 {
@@ -249,6 +259,7 @@ fn main() {
         "meta-cases" => cmd_meta_cases(&m),
         "migration-runs" => cmd_migration_runs(&m),
         "ctl-runs" => cmd_ctl_runs(&m),
+        "tcp-runs" => cmd_tcp_runs(&m),
         other => {
             eprintln!("unknown subcommand {}", other);
             2
